@@ -29,8 +29,9 @@ def make_case(ctx, i):
             scalar_cfg[d["name"]] = "string"
             scalar_texts[d["name"]] = dict(ri="string", ro="string", oi="string", oo="string")
     mode = MODES[i % 3]
-    layout = i % 4
-    schema_out = ["./gen/schema.d.ts", "./schema/types.d.ts", "./out/deep/er/s.d.ts", "./schema.d.ts"][layout]
+    layout = i % 6
+    # (the last two: an output directory whose NAME is a proper string prefix of an input directory's name - "sch" / "schema", "op" / "ops")
+    schema_out = ["./gen/schema.d.ts", "./schema/types.d.ts", "./out/deep/er/s.d.ts", "./schema.d.ts", "./sch/t.d.ts", "./op/s.d.ts"][layout]
     gen = {"schemaOutput": schema_out, "mode": mode, "type": {"scalarTypes": scalar_cfg}}
     if r.chance(1, 2):
         gen["resolversOutput"] = ["./gen/resolvers.d.ts", "./out/r.d.ts"][r.below(2)]
@@ -170,7 +171,7 @@ def run(ctx, res):
     wstats = [s for s in o.stats if "writer" in s]
     res.distinct_nontrivial = len(cases) + len(vc) + sum(1 for s in wstats if s["writer"] == "judged")
     res.rule = ("%d seeded projects: valid schema (tsgen) split over 1-3 files, a root operation file with merge-heavy selections and 1-3 fragments, "
-                "optionally importing fragment files (one of them transitively), x the three generate modes x four output layouts (outputs above / "
+                "optionally importing fragment files (one of them transitively), x the three generate modes x six output layouts (outputs above / "
                 "below / beside the inputs, resolvers output on/off); the real CLI writes every declaration and map; TLC decodes every map "
                 "(base64 VLQ, relative fields) and checks every segment (ordered, inside the generated text, source resolves to an input file, "
                 "original position a token start or just past a token, name = the token there or the name of the definition whose keyword is there) and "
